@@ -76,6 +76,10 @@ pub uninterp spec fn sealed_with(datagram: Seq<u8>, key: [u8; 32], sequence: u64
 pub open spec fn handshake_nonce(datagram: Seq<u8>) -> bool {
     exists|k: [u8; 32], q: u64| #[trigger] sealed_with(datagram, k, q) && q >= 0x8000_0000_0000_0000
 }
+/// a handshake reply sealed with exactly the nonce `q`
+pub open spec fn handshake_nonce_is(datagram: Seq<u8>, q: u64) -> bool {
+    q >= 0x8000_0000_0000_0000 && exists|k: [u8; 32]| #[trigger] sealed_with(datagram, k, q)
+}
 pub open spec fn session_nonce(datagram: Seq<u8>, q: u64) -> bool {
     q < 0x8000_0000_0000_0000 && exists|k: [u8; 32]| #[trigger] sealed_with(datagram, k, q)
 }
@@ -468,7 +472,7 @@ impl NetcodeServer {
                                 assert(s0.clients@[k] is None);
                                 assert(slot_is(self.clients@, k, client_id, addr));
                                 assert(same_sessions_but(s0.clients@, self.clients@, k));
-                                assert(challenge_authentic(token_data, token_sequence, s0.challenge_key, client_id, user_data));
+                                assert(challenge_authentic(token_data, token_sequence, s0.challenge_key, client_id, user_data));   // @C05 process_packet.the_echoed_challenge_was_sealed_for_the_reported_id_and_user_data
                                 assert(issued_challenge(s0.challenge_key, client_id, user_data));
                                 assert(s0.pending_clients@.contains_key(addr));
                                 assert(s0.pending_clients@[addr].client_id == client_id);
